@@ -186,7 +186,7 @@ func chooseConfig(c *nd.Ctx, maxK int) []arch {
 	return cfg
 }
 
-var initialStates = []xmpp.SessionState{0, xmpp.Secure, xmpp.Secure | xmpp.Authn}
+var initialStates = []xmpp.SessionState{0, xmpp.Secure, xmpp.Secure | xmpp.Authn, xmpp.Authn} // the last one: authenticated by other means before any security layer
 
 func negotiatorFor(ws bool, feats []xmpp.StreamFeature) xmpp.Negotiator {
 	cfg := func(*xmpp.Session, *xmpp.StreamConfig) xmpp.StreamConfig { return xmpp.StreamConfig{Features: feats} }
